@@ -19,12 +19,25 @@ PROP = dict(
               "winlen {nfft/4,nfft/2,nfft-1,nfft} x overlap {0,1,winlen/2,winlen-1}; 10 windows (rect, hamming, hann, kaiser 5, blackman, "
               "blackmanharris, cosine, gauss 2.5, tukey 0.5, periodic hann; 4 for nfft>256); signal lengths winlen+j*stride+r, j in {0,1,3}, "
               "r in {0,stride-1}; real and complex; density sum (Psd) and shape (Power). Overload forms for winlen 2..66 and "
-              "{200,255,256,257,1000,1024}. Tone sweep nfft {8,16,32,64}: every frequency q/(4 nfft) in (0,0.5) real / (-0.5,0.5) complex, "
-              "4x4 segment grid, 10 windows, amplitudes {1e-3,1,1e3} inside each case. mscohere: same segment grids (full for nfft<=16), 4 windows, y in "
-              "{-3x,1e-3x,x,1e3x,1e-15x,-1e-13x,1e-10x,1e10x,1e13x,-1e15x, the pair (1e-8x,1e8x), filtered,independent}, 4 overload forms",
-        thorough="as quick with every window length 2..nfft also for nfft 64 (every overlap for winlen<=32), signal lengths j in {0,1,2,5}, all 10 windows at every nfft, long signals (N=100000 at nfft 1024/4096, stride-1 "
-                 "cases N=20000/50000), overload forms winlen 2..130, tone sweep also nfft 256, mscohere full segment grid for nfft<=32"),
-    deadline=dict(quick=150, thorough=1500),
+              "{100,200,255,256,257,1000,1024}. Tone sweep nfft {8,16,32,64}: every frequency q/(4 nfft) in (0,0.5) real / (-0.5,0.5) "
+              "complex, 4x4 segment grid, 10 windows, amplitudes {1e-3,1,1e3} inside each case. mscohere: same segment grids (full for "
+              "nfft<=16), 4 windows, y in {-3x,1e-3x,x,1e3x,1e-15x,-1e-13x,1e-10x,1e10x,1e13x,-1e15x, the pair (1e-8x,1e8x), filtered, "
+              "independent}, 4 overload forms; default-argument forms also for the non-power-of-two window lengths "
+              "{3,5,6,7,9,12,17,24,31,33,48,63,65,100,129,200,255,257,1000}. BIG sizes: signals of 70000 and 140000 samples with nfft 256 "
+              "and nfft 8192 (window length = nfft, overlap nfft/2 and 7/8 nfft, hamming and periodic hann, real and complex): density "
+              "power identity, power-scaled level of a bin-centred tone at bin nfft/3, label of real tones at nfft/3 + {0,1/4,3/4} bin, "
+              "mscohere of scaled copies (1e3, -1e-13), filtered and independent letters",
+        thorough="welch grid: nfft {8,16,32,64,128,256,512,1024,2048,4096}; for nfft<=128 every window length 2..nfft (every overlap for "
+                 "winlen<=64, else 7 overlaps), above 7 window lengths {nfft/4,nfft/3,nfft/2,nfft/2+1,3nfft/4,nfft-1,nfft} x 7 overlaps "
+                 "{0,1,wl/4,wl/2,3wl/4,wl-2,wl-1}; 10 windows at every nfft; signal lengths j in {0,1,2,5}; long signals (N=100000 at nfft "
+                 "1024/4096, stride-1 cases N=20000/50000) and the BIG sizes of the quick tier. Overload forms for every winlen 2..300 and "
+                 "{500,513,1000,1023,1024,1025,2000,3000,4095,4097}. Tone sweep nfft {8,16,32,64,128,256}: every frequency q/(8 nfft) "
+                 "(8 per bin), 4x4 segment grid, 10 windows, 3 amplitudes; nfft 512: 8 per bin, winlen {256,512} x overlap {0,winlen/2} x {rect, hamming, periodic hann}; nfft 1024 and 4096: 10 (real) / 20 (complex) frequencies next to "
+                 "DC, next to +-0.5, bin-centred and off-centre. mscohere: segment grid as welch (full for nfft<=64, every overlap for "
+                 "winlen<=32), 10 windows, the quick letters plus {-x, (3x,-7x), (1e5x,1e-5x), 1e6x, -1e-6x, delayed by 3, x+0.5*independent}, "
+                 "4 overload forms; default-argument forms for every non-power-of-two winlen 2..300 and {500,513,1000,1023,1025,2000,3000,"
+                 "4095,4097}"),
+    deadline=dict(quick=150, thorough=3000),
     assumptions=COMMON_ASSUME + [
         "window lengths <= nfft, signal length >= window length, noverlap < winlen (in-domain inputs only); windows whose largest weight "
         "is < 1e-3 (hann(2)) are not used",
